@@ -141,13 +141,19 @@ def run_path(task):
             rec.update(res)
             if res["verdict"] != "discharged" and ob.kind != "cover":
                 rec["smt2"] = text
+            elif CROSS_SAMPLE and ob.kind != "cover" and "lambda" not in text and int(hashlib.sha256(text.encode()).hexdigest(), 16) % CROSS_SAMPLE == 0:
+                rec["smt2_cross"] = text  # thorough tier: a deterministic sample of the discharged obligations is re-checked by cvc5
             out["results"].append(rec)
         out["src_hash"] = fu.src_hash
     except (Unsupported, ContractBindError) as e:
         out["error"] = f"{type(e).__name__}: {e}"
     except TypeError as e:
+        tb_last = traceback.extract_tb(e.__traceback__)[-1]
         if "positional argument" in str(e) or "keyword argument" in str(e):
             out["error"] = f"ContractBindError: a signature no longer matches the sidecar contract ({e})"
+        elif tb_last.filename.startswith("<") and "rewritten" in tb_last.filename:
+            # raised by the code under verification itself, on a proxy that does not model the operation
+            out["error"] = f"Unsupported: operation on a proxy that the engine does not model ({e})"
         else:
             out["error"] = f"ENGINE-ERROR {type(e).__name__}: {e}\n{traceback.format_exc()[-1500:]}"
     except Exception as e:  # engine bug: reported as a checker error, never as a verdict
@@ -172,7 +178,9 @@ def _cover(ob, budget):
     return {"verdict": "undecided", "backend": "cover-not-found", "seconds": round(dt, 3)}, text
 
 
+CROSS_SAMPLE = int(os.environ.get("VERIF_CROSS_SAMPLE", "0"))  # k > 0: keep the SMT text of every k-th discharged obligation
 MAX_PATHS = int(os.environ.get("VERIF_MAX_PATHS", "1500"))
+TASK_TIMEOUT_S = int(os.environ.get("VERIF_TASK_TIMEOUT_S", "400"))  # one path: exploration + all its obligations
 UNIT_BUDGET_S = int(os.environ.get("VERIF_UNIT_BUDGET_S", "900"))  # wall-clock cap of one verify_units call (normal: 1-2 min)
 DEFAULT_BUDGETS = {"default": {"z3": 10, "cvc5": 20, "finite": 1, "kmax": 4}, "special": []}
 
@@ -207,6 +215,7 @@ def _verify_units(units, budgets, workers, report, t0, ctx):
             inflight += 1
             ar = pool.apply_async(run_path, (task,))
             ar._vc_unit = task[0]
+            ar._vc_t0 = time.time()
             pending.append(ar)
 
         for u in units:
@@ -225,6 +234,11 @@ def _verify_units(units, budgets, workers, report, t0, ctx):
             for ar in pending:
                 if getattr(ar, "_vc_unit", None) is not None and report[ar._vc_unit]["error"] and not ar.ready():
                     continue  # the unit is already undecided: its remaining paths are abandoned (killed with the pool)
+                if not ar.ready() and time.time() - getattr(ar, "_vc_t0", t0) > TASK_TIMEOUT_S and getattr(ar, "_vc_unit", None) is not None:
+                    # a path task that never comes back (a worker process died, a solver call ignored its timeout):
+                    # the function is undecided, the check goes on
+                    report[ar._vc_unit]["error"] = report[ar._vc_unit]["error"] or f"Unsupported: a path task did not return within {TASK_TIMEOUT_S} s (worker lost or solver stuck)"
+                    continue
                 if ar.ready():
                     progressed = True
                     out = ar.get()
@@ -246,6 +260,7 @@ def _verify_units(units, budgets, workers, report, t0, ctx):
                     for pf in out["pending"]:
                         ar2 = pool.apply_async(run_path, ((out["unit"], out["case"], pf, budgets),))
                         ar2._vc_unit = out["unit"]
+                        ar2._vc_t0 = time.time()
                         still.append(ar2)
                 else:
                     still.append(ar)
